@@ -615,3 +615,31 @@ Proof.
       split; auto. intro Hs. subst val. discriminate.
     + intro H. inversion H. reflexivity.
 Qed.
+
+(* ---------- include_comments is a closed set of values ---------- *)
+Lemma int_never_comment_mode z : valid_comment (z_to_string z) = false.
+Proof.
+  unfold valid_comment, z_to_string. destruct (Z.to_int z) as [d|d]; destruct d; reflexivity.
+Qed.
+
+Theorem comment_mode_closed_set kv r v :
+  decode_client kv = Some r -> jlookup "include_comments" kv = Some v ->
+  valid_comment (r_comments r) = true ->
+  (exists s, v = JStr s /\ valid_comment s = true) \/ (exists b, v = JBool b) \/
+  (exists l, v = JFloat l /\ valid_comment l = true).
+Proof.
+  unfold decode_client. intros HD HL.
+  destruct (decode_base kv); [|discriminate].
+  repeat (match type of HD with (match ?x with Some _ => _ | None => None end) = _ =>
+            destruct x eqn:?; [|discriminate] end).
+  inversion HD; subst; clear HD. simpl.
+  match goal with H : section_comments kv = Some _ |- _ => unfold section_comments in H; rewrite HL in H end.
+  destruct v; match goal with H : Some _ = Some _ |- _ => inversion H; subst; clear H end; simpl; intro HV.
+  - discriminate.
+  - right. left. eauto.
+  - rewrite int_never_comment_mode in HV. discriminate.
+  - right. right. eauto.
+  - left. eauto.
+  - discriminate.
+  - discriminate.
+Qed.
